@@ -226,6 +226,20 @@ def rule_qt_restore(ctx):
                     conds = [(expr_str(f, cn), pol) for cn, pol in f.guard_conds(f.nblock[n["i"]]) if cn is not None]
                     ok = name == "restoreValues" and expr_str(f, n["a"][1]) == "true" and ("QT_SIGNAL_SLOT_found", True) in conds
                     r.check(ok, "%s-written-in/%s" % (name, f.qn), db.loc(f, n), "%s is assigned in %s outside the save/restore pair (conditions %s)" % (name, f.qn, conds))
+    # save and restore walk the same table in the same way: every option that is overridden is put back
+    def table_loop(f, method):
+        for h, body, backs in f.loops():
+            t = f.blocks[h].get("term") or {}
+            inside = [n for b in body for n in f.blocks[b]["n"] if n["k"] == "call" and (n.get("c") or "").endswith(method)]
+            if not inside:
+                continue
+            rng = [expr_str(f, n["i"]) for b2 in f.blocks for n in f.blocks[b2]["n"] if n["k"] == "decl" and "__range" in expr_str(f, n["i"]).split("=")[0]]
+            return (t.get("k"), tuple(sorted(set(x.split("=")[-1].strip() for x in rng))), tuple(expr_str(f, n["i"]) for n in inside))
+        return None
+    ls, lr = table_loop(sq, "::save_and_override"), table_loop(rq, "::restore")
+    r.check(ls is not None and lr is not None and ls[0] == lr[0] == "CXXForRangeStmt" and ls[1] == lr[1] and len(ls[1]) == 1, "save-and-restore-walk-the-same-table", db.loc(rq, rq.l0),
+            "save_set_options_for_QT iterates %s, restore_options_for_QT iterates %s: an entry that is overridden but not restored keeps the override "
+            "for the rest of the file and for every later file" % (ls, lr))
     end = db.fn("uncrustify_end", file=UNC)
     calls = db.calls_in(end, "restore_options_for_QT")
     cs = [(expr_str(end, cn), pol) for cn, pol in end.guard_conds(end.nblock[calls[0]["i"]]) if cn is not None] if calls else []
